@@ -904,6 +904,26 @@ def negative_phase(ctx, spec, data, r, pristine, tag):
                     n_model += 1
                     ctx.count("neg_checksum_preserving_swaps")
             spsdk_judge(bad, spec["kek"], "corruption", name)
+    # truncation: a file that ends early - exactly in front of a section, at the end of a section's MAC table, inside the
+    # last section, one block or one byte short.  Every section is authenticated and counted by the signed header, so the
+    # loader refuses all of these; SPSDK must raise or (never the case for a lost section) return the same content.
+    if r is not None:
+        cuts = set()
+        for s_ in r["sections"]:
+            cuts.update((s_["offset"], s_["offset"] + 48 + 32 * s_["hmac_count"], s_["end"], (s_["offset"] + s_["end"]) // 2 & ~15))
+        cuts.update((len(data) - 1, len(data) - 16, r["sections"][0]["offset"] - 16 if r["sections"] else 0))
+        for cut in sorted(c for c in cuts if 208 <= c < len(data)):
+            bad = data[:cut]
+            if not r["issues"]:
+                try:
+                    sb2_rom.decode(bad, spec["kek"], diagnose=False)
+                    raise core.Inconclusive(f"ROM model accepted a file cut at {cut} of {len(data)} ({spec['ver']})")
+                except sb2_rom.RefReject:
+                    n_model += 1
+                    ctx.count("neg_truncations")
+            where = next((f"section{i}" for i, s_ in enumerate(r["sections"]) if s_["offset"] <= cut < s_["end"]), "before-sections")
+            border = any(cut in (s_["offset"], s_["end"]) for s_ in r["sections"])
+            spsdk_judge(bad, spec["kek"], "corruption", f"{where}.truncated-{'at-section-border' if border else 'inside'}")
     ctx.count("neg_model_rejected", n_model)
 
 
@@ -964,7 +984,30 @@ def base_spec(rng, ver="2.1", flags=0x0008):
     return spec
 
 
-def run_case(case, ctx):  # noqa: C901
+# time zones a build may run in (POSIX TZ strings, no zone database needed): the header timestamp is an instant, whatever
+# the zone and its daylight-saving rules are
+TIME_ZONES = ["UTC0", "CET-1CEST,M3.5.0,M10.5.0/3", "EST5EDT,M3.2.0,M11.1.0", "NZST-12NZDT,M9.5.0,M4.1.0/3", "IST-5:30", "<-03>3"]
+
+
+def run_case(case, ctx):
+    import os
+    import time
+
+    old = os.environ.get("TZ")
+    os.environ["TZ"] = core.pick(ctx.rng, TIME_ZONES)
+    time.tzset()
+    ctx.count("~tz:" + os.environ["TZ"].split(",")[0])
+    try:
+        return _run_case(case, ctx)
+    finally:
+        if old is None:
+            os.environ.pop("TZ", None)
+        else:
+            os.environ["TZ"] = old
+        time.tzset()
+
+
+def _run_case(case, ctx):  # noqa: C901
     rng = ctx.rng
     kind = case["kind"]
 
